@@ -213,7 +213,10 @@ def mutants(spec):
                                     continue
                             else:
                                 mw = width_of(spec, mi, sub)
-                            s = clone(); e2 = copy.deepcopy(e); e2[1][mj][1] = ["sig", new_sig(s, mi, mw + 1)]; setconn(s, e2)
+                            badw = mw + 1
+                            if kind == "array" and inst["n"] * mw == badw:
+                                badw = mw + 2  # n*w would be legal per-element wiring once the bundle is flattened
+                            s = clone(); e2 = copy.deepcopy(e); e2[1][mj][1] = ["sig", new_sig(s, mi, badw)]; setconn(s, e2)
                             yield "width_mismatch", "%s/%s/anon_member" % (depth, kind), s
                             s = clone(); e2 = copy.deepcopy(e); e2[1][mj][1] = ["orphan", mw]; setconn(s, e2)
                             yield "orphan_signal", "%s/%s/in_anon" % (depth, kind), s
@@ -232,6 +235,8 @@ def mutants(spec):
                         if bdef["sigs"] and not bdef.get("builtin"):
                             bdef["name"] = bdef["name"] + "w"
                             bdef["sigs"][0][1] += 1
+                            if kind == "array" and inst["n"] * (bdef["sigs"][0][1] - 1) == bdef["sigs"][0][1]:
+                                bdef["sigs"][0][1] += 1  # n*w would be legal per-element wiring once the bundle is flattened
                             s["bundles"].append(bdef)
                             bname = "zzb%d" % len(s["modules"][mi]["bundles"])
                             s["modules"][mi]["bundles"].append([bname, len(s["bundles"]) - 1, False, False, None, "ctor"])
